@@ -74,6 +74,31 @@ def cycle_check(t: Tally, defn, case, states):
     except Exception as e:  # noqa: BLE001
         t.violation({"kind": "not-well-formed", "exc": type(e).__name__}, case, observed=str(e)[:200])
         return g1
+    # write_xml (the file-writing front end) must be as deterministic and loadable as the tree it serializes
+    if case.get("use_write_xml"):
+        import pathlib
+        from space_packet_parser.xtce.definitions import XtcePacketDefinition
+        pth = pathlib.Path(VERIF_ROOT) / ".work" / f"c15_{os.getpid()}.xml"
+        pth.parent.mkdir(exist_ok=True)
+        try:
+            defn.write_xml(pth)
+            f1 = pth.read_bytes()
+            defn.write_xml(pth)
+            f2 = pth.read_bytes()
+            t.transitions += 3
+            if f1 != f2:
+                t.violation({"kind": "nondeterministic-write", "via": "write_xml"}, case, note="two write_xml calls produced different files")
+            d_file = XtcePacketDefinition.from_xtce(pth, xtce_ns_prefix=defn.xtce_ns_prefix, root_container_name=defn.root_container_name)
+            if canon_definition(d_file) != canon_definition(L(g1, defn)):
+                t.violation({"kind": "write_xml-differs-from-tree"}, case, note="the file written by write_xml loads to a different definition than to_xml_tree()")
+            check_namespace(f1, uri)
+        except Exception as e:  # noqa: BLE001
+            t.violation({"kind": "write_xml-failed", "exc": type(e).__name__}, case, observed=str(e)[:300])
+        finally:
+            try:
+                pth.unlink()
+            except OSError:
+                pass
     gs = [g1]
     cur = g1
     try:
@@ -126,7 +151,7 @@ def _task(task):
                 doc = make_doc(item)
                 for style in (STYLES if (j + task["base"]) % 3 == 0 or item[0] == "trees" else (STYLES[(j + task["base"]) % 4],)):
                     for via in ("xml", "objects"):
-                        case = {"family": item[0], "item": item[1], "style": style, "via": via}
+                        case = {"family": item[0], "item": item[1], "style": style, "via": via, "use_write_xml": (j + task["base"]) % 4 == 0}
                         try:
                             defn = load_doc(doc, style) if via == "xml" else build_objects(doc, style)
                         except Exception as e:  # noqa: BLE001
